@@ -153,7 +153,14 @@ def check_one_region(ctx, rid, T, reg):
             viol, n = rx.check_never_matches(rp, spec2, atoms2, right_ok, allow_end)
             n_total += n
         except rx.Unsupported as e:
-            ctx.ob(rid, rid_key + f':earlier:{r.pattern}', f'{kwloc}:{r.line}', 'earlier rule analysable', None, str(e))
+            if 'dollar' in reg:
+                ctx.ob(rid, rid_key + f':earlier:{r.pattern}', f'{kwloc}:{r.line}', 'earlier rule analysable', None, str(e))
+                continue
+            nw, bv = bounded_region(T, reg)
+            ctx.ob(rid, rid_key + f':earlier:{rx.canon_pattern(r.pattern)}', f'{kwloc}:{r.line}',
+                   f'rule #{r.index} {r.pattern!r} (before the {reg["id"]} rule; not analysable as an automaton: {e}) never takes a {reg["id"]}: '
+                   f'{nw} lexemes up to 5 characters in 8 right contexts lexed with the whole table', not bv,
+                   (f'{bv[0][0]!r} is lexed as {bv[0][1]!r} typed {bv[0][2]} by rule {bv[0][3]!r}' if bv else '') + f': the region is not one {reg["exact"]!r} token that ends at its terminator')
             continue
         ctx.ob(rid, rid_key + f':earlier:{r.pattern}', f'{kwloc}:{r.line}',
                f'rule #{r.index} {r.pattern!r} (before the {reg["id"]} rule) never matches at the opener of a {reg["id"]}', not viol,
@@ -163,7 +170,14 @@ def check_one_region(ctx, rid, T, reg):
         viol, n = rx.check_extent(rule_prog, spec, atoms, right_ok=right_ok, allow_end=allow_end)
         n_total += n
     except rx.Unsupported as e:
-        ctx.ob(rid, rid_key + ':extent', loc, 'extent decidable', None, str(e))
+        if 'dollar' in reg:
+            ctx.ob(rid, rid_key + ':extent', loc, 'extent decidable', None, str(e))
+            return n_total
+        nw, bv = bounded_region(T, reg)
+        ctx.ob(rid, rid_key + ':extent', loc,
+               f'rule #{E.index} {E.pattern!r} (not analysable as an automaton: {e}): {nw} {reg["id"]} lexemes up to 5 characters in 8 right contexts, lexed with the whole '
+               'table, are one token that ends at the terminator', not bv,
+               (f'{bv[0][0]!r} is lexed as {bv[0][1]!r} typed {bv[0][2]} by rule {bv[0][3]!r}' if bv else ''))
         return n_total
     ctx.ob(rid, rid_key + ':extent', loc,
            f'for every {reg["id"]} lexeme and every right context the match of rule #{E.index} {E.pattern!r} ends exactly at the terminator '
@@ -171,6 +185,38 @@ def check_one_region(ctx, rid, T, reg):
            (f'{viol[0][0]} on the word {viol[0][1]!r}' if viol else '') + ': the body is cut short or runs past its terminator, so its contents '
            '(";" included) reach the splitter as separate tokens / swallow following text')
     return n_total
+
+
+def bounded_region(T, reg, maxlen=5):
+    """Fallback when a rule cannot be put into the extent automaton (look-around in a region rule): every lexeme of the region's
+    specification up to `maxlen` characters over a small alphabet, in a handful of right contexts (among them another lexeme of
+    the same kind), is lexed with the whole table (first matching row wins); it must come out as one token of the expected type
+    that ends at its terminator.  -> (number of lexemes, violations)"""
+    import itertools
+    spec = re.compile(reg['spec'], re.UNICODE)
+    first = {c for c in "'\"`/-#$" if spec.match(c + c + c + c) or spec.match(c + 'a' + c) or spec.match(c + '*a*' + c[::-1]) or spec.match(c + c) or c in reg['spec'][:4]}
+    alpha = sorted(first | set("a ;\n'\"*/-\\"))
+    bad_right = re.compile(reg['bad_right'], re.UNICODE) if reg.get('bad_right') else None
+    words = []
+    for n_ in range(1, maxlen + 1):
+        for p in itertools.product(alpha, repeat=n_):
+            w = ''.join(p)
+            if spec.fullmatch(w):
+                words.append(w)
+    viol = []
+    sample = words[:4] + words[-4:]
+    for w in words:
+        suffixes = [''] if reg.get('only_end') else ['', ' x', ';', ')', '\n', ', ' + w] + [', ' + v for v in sample[:3]]
+        for sfx in suffixes:
+            if sfx and bad_right is not None and bad_right.match(sfx):
+                continue
+            r, end, tt = T.lex_one(w + sfx, 0)
+            if not (end == len(w) and isinstance(tt, TT) and tuple(tt) == tuple(reg['exact'])):
+                viol.append((w + sfx, (w + sfx)[:end], repr(tt), r.pattern if r is not None else None))
+                break
+        if len(viol) >= 20:
+            break
+    return len(words), viol
 
 
 def _mk(seq, like):
